@@ -478,10 +478,11 @@ def _classify_handler(fv: FuncView, h: ast.ExceptHandler) -> str:
                 if cl in ("to_graphql_error", "graphql_error_from_nodes", "coercion_error") and fv.enclosing(n, (ast.Return,)) is not None:
                     return "records"
     if name:
-        for s in h.body:
-            if isinstance(s, ast.Return) and s.value is not None and unparse(s.value) == name:
+        mentions = lambda e: any(isinstance(x, ast.Name) and x.id == name for x in ast.walk(e))  # noqa: E731
+        for s in [x for b in h.body for x in ast.walk(b) if isinstance(x, ast.stmt)]:
+            if isinstance(s, ast.Return) and s.value is not None and mentions(s.value):
                 return "exception kept as value"
-            if isinstance(s, ast.Assign) and unparse(s.value) == name and isinstance(s.targets[0], ast.Name):
+            if isinstance(s, ast.Assign) and mentions(s.value) and isinstance(s.targets[0], ast.Name):
                 tgt = s.targets[0].id
                 # the local must be used after the handler (appended / returned)
                 uses = [n for n in walk_no_nested(fv.node) if isinstance(n, ast.Name) and n.id == tgt and isinstance(n.ctx, ast.Load)
